@@ -122,3 +122,50 @@ func normSpace(s string) string {
 	s = strings.ReplaceAll(s, " }", "}")
 	return s
 }
+
+// scanAllGlobals scans every loaded snapd package for stores to package variables (an exported
+// variable may be assigned from another package).
+func (e *Engine) scanAllGlobals() {
+	if e.allScanned {
+		return
+	}
+	e.allScanned = true
+	for _, p := range e.prog.AllPackages() {
+		if strings.HasPrefix(p.Pkg.Path(), snapdMod) {
+			e.scanGlobals(p)
+		}
+	}
+}
+
+// immutableGlobalFacts: facts about the initial value of a never-reassigned package variable that
+// follow from the form of its initialiser: errors.New / fmt.Errorf results are non-nil.
+func (fc *FnCtx) immutableGlobalFacts(key string, g *ssa.Global) {
+	init, info := fc.eng.globalInit(g)
+	if init == nil {
+		return
+	}
+	call, ok := init.(*ast.CallExpr)
+	if !ok {
+		return
+	}
+	sel, ok := call.Fun.(*ast.SelectorExpr)
+	if !ok {
+		return
+	}
+	f, ok := info.Uses[sel.Sel].(*types.Func)
+	if !ok {
+		return
+	}
+	switch f.FullName() {
+	case "errors.New", "fmt.Errorf":
+		t := g.Type().(*types.Pointer).Elem()
+		srt := fc.so.Sort(t)
+		if srt != "Iface" {
+			return
+		}
+		fc.regKey(key, srt)
+		c := fc.tb.Const("h0!"+key, srt)
+		fc.tb.AddAxiom("global "+g.Name()+" non-nil", fc.tb.Not(fc.tb.Eq(c, fc.tb.Const("inil", "Iface"))))
+		fc.note("package variable " + g.String() + " is never reassigned and initialised by " + f.FullName() + ": non-nil")
+	}
+}
